@@ -836,7 +836,15 @@ class Explorer(object):
         indirect = None
         if name is None:
             cv = self.ev(ins.callee, st) if ins.callee.kind == 'reg' else None
+            while cv is not None and cv[0] == 'bin' and cv[1] == 'bitcast':
+                cv = cv[2]
             indirect = cv
+            gname = cv[1].lstrip('@') if cv is not None and cv[0] == 'g' else None
+            if gname is not None and (gname in self.funcs or gname in self.mod_sets or gname in self.pure):
+                # a function pointer that is one known function on this path (chosen by a select / kept in a local): a direct call
+                name = gname
+                indirect = None
+        if name is None:
             name = 'indirect:' + (field_of(cv[1]) if cv and cv[0] == 'ld' and field_of(cv[1]) else render(cv) if cv else '?')
         if name in IDENTITY and len(args) > IDENTITY[name]:
             st.env[ins.res] = args[IDENTITY[name]]
